@@ -70,11 +70,16 @@ func parserRequestURL(c *Client, req *Request) error {
 		}
 	}
 
-	// Set path parameters from the request and client.
-	req.path.VisitAll(func(key, val string) {
-		uri = strings.ReplaceAll(uri, ":"+key, val)
-	})
+	// Set path parameters from the request and client: request-level values win,
+	// and all names are substituted in one pass (longest first, see PathParam.VisitAll).
+	pathParams := make(PathParam, len(*c.path)+len(*req.path))
 	c.path.VisitAll(func(key, val string) {
+		pathParams[key] = val
+	})
+	req.path.VisitAll(func(key, val string) {
+		pathParams[key] = val
+	})
+	pathParams.VisitAll(func(key, val string) {
 		uri = strings.ReplaceAll(uri, ":"+key, val)
 	})
 
